@@ -9,6 +9,7 @@ from .. import build, gen, monitors
 from . import common as K
 
 ID = "C16"
+REACH_TARGETS = [('Adapter.transform', 'formak.python:SklearnEKFAdapter.transform'), ('Adapter.score', 'formak.python:SklearnEKFAdapter.score'), ('Adapter.mahalanobis', 'formak.python:SklearnEKFAdapter.mahalanobis')]
 LEVEL = "exploration"
 RULE = ("random contractive filter definitions with 0-3 controls and 1-3 sensors x 1-3 readings; data matrices "
         "of 3-12 rows [controls..., readings per sensor in key order...]; thresholds k in {None, 2, 5}; per "
